@@ -444,7 +444,62 @@ func runC16(c *core.Ctx) {
 			}
 		}
 	}
-	c.P.Bound = strings.Join(bound, ",") + ",keywords x 30 followers x 3 prefixes; both lexer modes"
+	// long tokens: every value-token kind at every length around the powers of two up to 64Ki, twice in one
+	// input (interning, tiling and extents must not depend on token length)
+	var sizes []int
+	for p := 8; p <= 65536; p *= 2 {
+		sizes = append(sizes, p-1, p, p+1)
+	}
+	mkTok := func(kind string, n int) string {
+		switch kind {
+		case "ident":
+			return strings.Repeat("a", n)
+		case "int":
+			return strings.Repeat("1", n)
+		case "float":
+			return "1." + strings.Repeat("5", n-2)
+		case "hex":
+			return "0x" + strings.Repeat("f", n-2)
+		case "string":
+			return "\"" + strings.Repeat("s", n-2) + "\""
+		case "rawstring":
+			return "`" + strings.Repeat("s", n-2) + "`"
+		case "escstring":
+			return "\"" + strings.Repeat("\\n", (n-2)/2) + "\""
+		case "linecomment":
+			return "//" + strings.Repeat("c", n-2) + "\n"
+		case "blockcomment":
+			return "/*" + strings.Repeat("c", n-4) + "*/"
+		case "ws":
+			return strings.Repeat(" ", n) + "x"
+		case "illegal":
+			return strings.Repeat("@", n)
+		}
+		return ""
+	}
+	for _, kind := range []string{"ident", "int", "float", "hex", "string", "rawstring", "escstring", "linecomment", "blockcomment", "ws", "illegal"} {
+		for _, n := range sizes {
+			if kind == "illegal" && n > 1025 {
+				continue
+			}
+			t := mkTok(kind, n)
+			for _, in := range []string{t, t + " " + t, "x " + t + " y " + t} {
+				if !c.MineNoDedup("long", fmt.Sprintf("%s/%d/%d", kind, n, len(in))) {
+					continue
+				}
+				b := []byte(in)
+				for _, lm := range []bool{false, true} {
+					v := c.Run(func() *core.Viol { return c16One(st, b, lm, "long") })
+					out := "long-ok"
+					if v != nil {
+						out = v.Class
+					}
+					c.CountNT(fmt.Sprintf("long:%s x%d", kind, n), out, true)
+				}
+			}
+		}
+	}
+	c.P.Bound = strings.Join(bound, ",") + ",long tokens of 11 kinds at lengths 2^k-1..2^k+1 (k=3..16)" + ",keywords x 30 followers x 3 prefixes; both lexer modes"
 }
 
 // c16Shape is the outcome class of a passing case: the multiset of token kinds seen (as a sorted set).
